@@ -98,7 +98,13 @@ pub fn run(tr: &mut Tr, seed: u64, rpaths: &str, wpaths: &str, full: bool, shard
                 if base.dead {
                     continue;
                 }
-                for &n in &ns {
+                let mut ns_here = ns.clone();
+                if let Some(rem) = base.remaining() {
+                    if rem <= 4000 {
+                        ns_here.extend([rem.saturating_sub(1), rem, rem + 1]);
+                    }
+                }
+                for &n in &ns_here {
                     for dir_to in [true, false] {
                         tests += 1;
                         distinct.insert((ci, sp.key, ww, dir_to));
